@@ -5,6 +5,7 @@ use core::cmp::Ordering;
 use vstd::multiset::Multiset;
 verus! {
 //@include prelude/time.rs
+//@include prelude/std_misc.rs
 
 //@include inc/txid.rs
 
